@@ -27,6 +27,8 @@ def jobs(tier):
     for c in cls:
         for n in range(0, nmax + 1):
             modes = (False,) if (tier == "quick" and (c["packet"] is not None or n > 3)) else (False, True)
+            if c["entry"]:
+                modes = (True,)
             for m in modes:
                 js.append(dict(name=f"hostile[{c['name']},n={n},chunked={int(m)}]", fn="hostile", args=[types, c, n, m, cap], tree="core",
                                collect_models=1, expect=["reader mode restored"], value_cap=700))
